@@ -407,7 +407,7 @@ def run_traced(spec, fault=None, gp_faults=None, predict_faults=None, ei_script=
                                             "complete_poll", "noise_final_samples", "fun_eval_start", "sloppy_improvement", "improvement_quantile", "stobads",
                                             "search_size_locked", "search_mesh_expand", "poll_mesh_multiplier", "init_mesh_size_integer", "n_search", "n_search_iter",
                                             "final_quantile", "n_train_max", "n_train_min", "buffer_ntrain", "gp_radius", "specify_target_noise", "hedge_gamma", "cache_size",
-                                            "force_poll_mesh", "nonlinear_scaling")}}
+                                            "force_poll_mesh", "nonlinear_scaling", "noise_size")}}
             res = b.optimize()
             tr["result"] = {k: (_f(res[k]) if k in ("x", "x0", "fval", "fsd", "mesh_size", "yval_vec", "ysd_vec") and res[k] is not None else
                                 (res[k] if isinstance(res[k], (int, float, str, bool, type(None))) else repr(type(res[k]))))
@@ -472,7 +472,11 @@ def _install_gp_wrappers(patch, state, ev, bb, gpt, es, gp_faults, update_faults
         dist = udist(fl.X[:n], u, gp.temporary_data["len_scale"], optim_state["lb"], optim_state["ub"], optim_state["scale"], optim_state["periodic_vars"])
         dist = np.min(dist, axis=1) if dist.ndim > 1 else dist
         radius = options["gp_radius"] * gp.temporary_data["effective_radius"]
-        e = {"u": _vec(u), "n_log": int(n), "dist": _vec(dist), "radius2": _f(np.asarray(radius, dtype=float) ** 2),
+        # the same squared distances computed independently of the repository (differences first, then scaling and squaring): what the
+        # "nearest / ordered by distance" clauses are judged against; `dist` (the implementation's own metric function) is the model's oracle
+        dref = np.sum(((fl.X[:n] - np.atleast_2d(u)) / np.asarray(gp.temporary_data["len_scale"], dtype=float)) ** 2, axis=1) \
+            if not np.any(optim_state["periodic_vars"]) and np.atleast_2d(u).shape[0] == 1 else dist
+        e = {"u": _vec(u), "n_log": int(n), "dist": _vec(dist), "dist_ref": _vec(dref), "radius2": _f(np.asarray(radius, dtype=float) ** 2),
              "n_min": _f(options["n_train_min"]), "n_max": _f(options["n_train_max"]), "buffer": _f(options["buffer_ntrain"]),
              "X": _rows(r[0]), "Y": _vec(r[1]), "S": None if r[2] is None else _vec(r[2]), "noise_flag": bool(fl.noise_flag),
              "logX": _rows(fl.X[:n]), "logY": _vec(fl.Y[:n]), "logS": _vec(fl.S[:n]) if fl.noise_flag else None,
@@ -615,6 +619,8 @@ def cached(tag, seed, tier, make_jobs):
     jh = hashlib.sha256(json.dumps(jobs, sort_keys=True, default=str).encode()).hexdigest()[:10]     # the jobs themselves (generated in props/)
     key = f"{tag}_{repo_hash()}_{jh}_{seed}_{tier}.pkl"
     path = os.path.join(cdir, key)
+    if os.environ.get("VERIF_NOCACHE"):          # experiments only (coverage measurement): neither read nor write the cache
+        return run_many(jobs)
     if os.path.exists(path):
         try:
             with open(path, "rb") as f:
